@@ -70,6 +70,10 @@ def _FeShape(operands) -> tuple:
     return np.broadcast_shapes(*shapes) if shapes else ()
 
 
+# numpy functions that, like a ufunc, act elementwise over all their operands
+_ELEMENTWISE = frozenset({np.where, np.clip})
+
+
 class FeArray(np.ndarray):
     """Finite Element array.\n
 
@@ -228,6 +232,12 @@ class FeArray(np.ndarray):
         # numpy's own implementations broadcast the plain way and must keep doing so: einsum
         # with optimize= reaches for np.multiply internally, which would otherwise come back
         # through __array_ufunc__ and be aligned a second time
+        if func in _ELEMENTWISE:
+            # ... except where the function is elementwise like a ufunc: the fields must
+            # line up by rank like a ufunc's operands, before numpy broadcasts them
+            aligned = FeArray._align((*args, *kwargs.values()))
+            args = aligned[: len(args)]
+            kwargs = dict(zip(kwargs, aligned[len(args) :]))
         feShape = _FeShape(args) or _FeShape(kwargs.values())
         # numpy calls a dispatched reduction on the stripped array, so the method wrapper never
         # sees it and the axis has to be read here instead
